@@ -31,7 +31,9 @@ def config(draw, micro=False):
     surfaces = draw(S.aero_config(max_surf=3, nx=(2, 3), nyh=(2, 4), max_panels=30))
     allsym = all(symmetry_of(s["mesh"]) for s in surfaces)
     anysym = any(symmetry_of(s["mesh"]) for s in surfaces)
-    flow = draw(S.flow(beta=not anysym, rot=True, mach=(0.05, 0.9)))
+    # sideslip with a symmetric surface is outside the physics of a mirrored model, but the library accepts it and LiftDrag
+    # documents its convention ("if symmetric, double the computed forces"); drawn for incompressible cases only (DESIGN 12.3)
+    flow = draw(S.flow(beta=(not anysym) or draw(st.integers(0, 2)) == 0, rot=True, mach=(0.05, 0.9)))
     opts = [
         dict(
             with_viscous=draw(st.booleans()),
@@ -63,6 +65,8 @@ def config(draw, micro=False):
         flow.pop("cg", None)
     if anysym:
         d["t"][1] = 0.0
+    if anysym and flow.get("beta", 0.0) != 0.0:
+        d["compressible"] = False  # symmetric + sideslip + Prandtl-Glauert: x/z translation changes the results (DESIGN 12.3)
     return d
 
 
@@ -206,6 +210,8 @@ def verdict(desc, micro=False):
         out.label("rotation")
     if fl.get("beta", 0.0) != 0:
         out.label("sideslip")
+        if any(syms):
+            out.label("sideslip+symmetric")
     if any(syms):
         out.label("has-symmetric")
     if not micro:
